@@ -66,7 +66,8 @@ Definition is_runningb (p : plan) : bool :=
   match p_state p with Some s => status_eqb (s_status s) Running | None => false end.
 Definition is_staleb (now maxAge : Z) (p : plan) : bool := Z.ltb (latest p + maxAge) (instant now).
 
-(* ---- what "closed" means: a Running object becomes Failed and ends at [stamp]; the plan itself
+(* ---- what "closed" means: a Running object becomes Failed and ends at [last], the plan's most recent
+        recorded activity (so that a half-closed plan looks exactly as stale as before); the plan itself
         becomes Failed / ExceedRecovery and ends at [stamp]; nothing else changes ---- *)
 Definition close_state (stamp : Z) (s : state) : state :=
   match s_status s with
@@ -104,14 +105,14 @@ Definition close_block (stamp : Z) (b : block) : block :=
      b_conc := b_conc b; b_tol := b_tol b;
      b_state := option_map (close_state stamp) (b_state b) |}.
 
-Definition close_plan (stamp : Z) (p : plan) : plan :=
+Definition close_plan (last stamp : Z) (p : plan) : plan :=
   {| p_id := p_id p; p_group := p_group p; p_name := p_name p; p_descr := p_descr p; p_meta := p_meta p;
-     p_bypass := option_map (close_checks stamp) (p_bypass p);
-     p_pre := option_map (close_checks stamp) (p_pre p);
-     p_cont := option_map (close_checks stamp) (p_cont p);
-     p_post := option_map (close_checks stamp) (p_post p);
-     p_deferred := option_map (close_checks stamp) (p_deferred p);
-     p_blocks := close_list (close_block stamp) (p_blocks p);
+     p_bypass := option_map (close_checks last) (p_bypass p);
+     p_pre := option_map (close_checks last) (p_pre p);
+     p_cont := option_map (close_checks last) (p_cont p);
+     p_post := option_map (close_checks last) (p_post p);
+     p_deferred := option_map (close_checks last) (p_deferred p);
+     p_blocks := close_list (close_block last) (p_blocks p);
      p_state := option_map (fun s => {| s_status := Failed; s_start := s_start s; s_end := stamp |}) (p_state p);
      p_submit := p_submit p;
      p_reason := FRExceedRecovery |}.
